@@ -159,14 +159,14 @@ def valid_extension(name, p):
         if R.mesh_contains(q, *M_RD):
             return False
         comp = last_sum_comp(q)
-        return has_descent_pair(comp) or len(comp) == 1     # "not increasing, or a single point"
+        return has_ascent_pair(comp) or len(comp) == 1      # "not decreasing, or a single point"
     if name == "Ru2143CoreStrategy":
         q = drop_leading_min(p)
         if not q:
             return UNDEF
         if R.mesh_contains(q, *M_RU):
             return False
-        return has_descent_pair(last_skew_comp(q))           # "not increasing" (a point is increasing)
+        return has_descent_pair(last_skew_comp(q))           # "not increasing" (a single point IS increasing)
     raise KeyError(name)
 
 
